@@ -14,6 +14,8 @@ from vcommon import Violation
 
 LEVEL = "exploration"
 NAMES = ["m0", "m1", "m2", "m3", "m4", "m5"]
+LIBS = ["l0", "l1", "l2"]                       # constructor-less modules (nolib.so)
+MANY = ["k%03d" % i for i in range(300)]        # for graphs with hundreds of modules
 
 
 def edges_of(mask, n):
@@ -78,7 +80,8 @@ def multipath(edges, n):
     return False
 
 
-def graph_env(edges, order_rng=None, anti=()):
+def graph_env(edges, order_rng=None, anti=(), names=None):
+    NAMES = names or globals()["NAMES"]
     dep = {}
     for a, b in edges:
         if (a, b) in anti:
@@ -99,6 +102,11 @@ def graph_env(edges, order_rng=None, anti=()):
 def judge(case, rc, stdout, log):
     """Pure oracle over the stub event log.  Returns list of (rule, text)."""
     kind, n, edges, listing, genv = case["kind"], case["n"], case["edges"], case["listing"], case["genv"]
+    NAMES = case.get("names") or globals()["NAMES"]
+    nolib = set(case.get("nolib") or [])
+    edges = [tuple(e) for e in edges]
+    if kind == "dag2":
+        kind = "dag"
     out = []
     valid_line = "appears valid" in stdout
     events = [tuple(l.split(" ", 1)) for l in log.splitlines() if " " in l]
@@ -144,9 +152,11 @@ def judge(case, rc, stdout, log):
             for what in ("ctor-begin", "ctor-end", "post-init", "dtor"):
                 c = len(pos.get((what, nm), []))
                 want = 1 if u in need else 0
+                if u in nolib and what.startswith("ctor"):
+                    want = 0
                 if c != want:
                     out.append(("count-" + what, "graph %s listing %s: module %s has %d %s events, want %d" % (
-                        genv, listing, nm, c, what, want)))
+                        genv[:300], listing[:12], nm, c, what, want)))
         if any(w == "post-init-wrong-self" for w, _ in events):
             out.append(("postinit-self", "post-init received another module's descriptor"))
         if out:
@@ -155,14 +165,14 @@ def judge(case, rc, stdout, log):
             if a not in need:
                 continue
             A, B = NAMES[a], NAMES[b]
-            if not pos[("ctor-end", B)][0] < pos[("ctor-end", A)][0]:
+            if b not in nolib and not pos[("ctor-end", B)][0] < pos[("ctor-end", A)][0]:
                 out.append(("order-ctor", "graph %s listing %s: %s depends on %s but finished constructing first" % (genv, listing, A, B)))
             if not pos[("post-init", B)][0] < pos[("post-init", A)][0]:
                 out.append(("order-postinit", "graph %s listing %s: post-init of %s ran before that of its dependency %s" % (genv, listing, A, B)))
             if not pos[("dtor", A)][0] < pos[("dtor", B)][0]:
                 out.append(("order-dtor", "graph %s listing %s: destructor of dependency %s ran before that of %s" % (genv, listing, B, A)))
         # everything constructed before any post-init, every post-init before any destructor
-        ctor_last = max(pos[("ctor-end", NAMES[u])][0] for u in need)
+        ctor_last = max([pos[("ctor-end", NAMES[u])][0] for u in need if u not in nolib] or [-1])
         pi_first = min(pos[("post-init", NAMES[u])][0] for u in need)
         pi_last = max(pos[("post-init", NAMES[u])][0] for u in need)
         dt_first = min(pos[("dtor", NAMES[u])][0] for u in need)
@@ -183,8 +193,9 @@ def _worker(a):
         log = os.path.join(scratch, "log")
         for case in cases:
             with open(conf, "w") as f:
+                nm_ = case.get("names") or NAMES
                 f.write('core {\n library_path ( "%s" );\n modules ( %s );\n};\n' % (
-                    moddir, ", ".join(NAMES[u] if isinstance(u, int) else u for u in case["listing"])))
+                    moddir, ", ".join(nm_[u] if isinstance(u, int) else u for u in case["listing"])))
             if os.path.exists(log):
                 os.unlink(log)
             env = hrun.san_env(leaks=False, extra={"VERIF_MODGRAPH": case["genv"], "VERIF_MODLOG": log})
@@ -258,6 +269,45 @@ def gen_cases(tier, seed, scale):
         lst = list(range(n))
         rng.shuffle(lst)
         cases.append({"kind": "anti", "n": n, "edges": edges, "anti": anti, "listing": lst, "genv": graph_env(edges, rng, anti=anti)})
+    # modules without a constructor (it is optional): leaves that others depend on, pulled in by module_depends or listed themselves
+    for _ in range(int((300 if tier == "quick" else 4000) * scale)):
+        nm = rng.randint(1, 4)
+        nl = rng.randint(1, 3)
+        names = NAMES[:nm] + LIBS[:nl]
+        n = nm + nl
+        perm = list(range(nm))
+        rng.shuffle(perm)
+        edges = [(perm[i], perm[j]) for i in range(nm) for j in range(i + 1, nm) if rng.random() < 0.4]
+        edges += [(u, nm + l) for u in range(nm) for l in range(nl) if rng.random() < 0.5]
+        lst = rng.sample(range(n), rng.randint(1, n))
+        if not any(u < nm for u in lst):
+            lst.append(rng.randrange(nm))
+        cases.append({"kind": "dag2", "n": n, "edges": edges, "listing": lst, "names": names, "nolib": list(range(nm, n)),
+                      "genv": graph_env(edges, rng, names=names)})
+    # hundreds of modules: sparse random DAGs over 260-300 modules, all listed in random order (every module is a walk root at some point)
+    for _ in range(2 if tier == "quick" else 12):
+        n = rng.choice([260, 300])
+        # acyclic by construction: orient every edge along one random permutation
+        perm = list(range(n))
+        rng.shuffle(perm)
+        rank = {u: i for i, u in enumerate(perm)}
+        edges = []
+        for u in range(n):
+            for v in rng.sample(range(n), 2):
+                if v != u and rng.random() < 0.6:
+                    a_, b_ = (u, v) if rank[u] < rank[v] else (v, u)
+                    if (a_, b_) not in edges:
+                        edges.append((a_, b_))
+        if _ % 2 == 0:
+            # every module is the root of its own post-init walk (dependencies only point to names that sort earlier), so the
+            # walk counter reaches the hundreds; the modules around the 128th / 256th root are depended upon by later ones
+            edges = []
+            for t in list(range(120, 136)) + list(range(246, min(266, n - 3))):
+                for u in rng.sample(range(t + 1, n), 2):
+                    edges.append((u, t))
+        lst = list(range(n))
+        rng.shuffle(lst)
+        cases.append({"kind": "dag2", "n": n, "edges": edges, "listing": lst, "names": MANY[:n], "genv": graph_env(edges, rng, names=MANY[:n])})
     # cyclic graphs: all on <=3 nodes (with and without self loops), sampled on 4..6; all nodes listed
     for n in range(1, 4):
         for edges in all_digraphs(n, selfloops=True):
@@ -303,8 +353,11 @@ def prepare(tag):
     stub = build.build_shared(out, "asan", "modstub", "modstub.c")
     moddir = os.path.join(out, "stubs")
     os.makedirs(moddir)
-    for nm in NAMES:
+    for nm in NAMES + MANY:
         shutil.copy(stub, os.path.join(moddir, nm + ".so"))
+    nolib = build.build_shared(out, "asan", "nolib", "nolib.c")
+    for nm in LIBS:
+        shutil.copy(nolib, os.path.join(moddir, nm + ".so"))
     return b["exe"], moddir
 
 
@@ -319,7 +372,11 @@ def run(chk, tier, scale=1.0):
         for case, rc, viols, san, lg, nev in res:
             key = (case["kind"], case["n"], tuple(sorted(map(tuple, case["edges"]))), tuple(case["listing"]))
             mp = case["kind"] == "dag" and multipath(case["edges"], case["n"])
-            chk.add_case(vcommon.h(key + (tuple(map(tuple, case.get("anti", ()))),)), nev > 0 or case["kind"] not in ("dag", "anti"))
+            if case.get("nolib"):
+                chk.count("runs_with_constructorless_modules")
+            if case["n"] >= 200:
+                chk.count("runs_with_hundreds_of_modules")
+            chk.add_case(vcommon.h(key + (tuple(map(tuple, case.get("anti", ()))),)), nev > 0 or case["kind"] not in ("dag", "anti", "dag2"))
             chk.count("runs_" + case["kind"])
             chk.count("stub_events_judged", nev)
             if mp:
